@@ -43,6 +43,40 @@ def wmc(rule, prog, callee_regex, allowed, floor=1, what=None, skip_callers=None
 
 
 # ---------------------------------------------------------------------------
+def _ref_only_read(body, l, depth=2):
+    """the reference held by local l (a `&mut` borrow) is only dereferenced for reading in this body: no store through it, no mutable reborrow, never
+    an argument of a call, never returned or stored; plain copies of the reference are followed"""
+    def mentions(pl):
+        return pl is not None and pl[0] == l
+    for blk in body.blocks:
+        for s in blk.stmts:
+            if s.k != "assign":
+                if s.lhs is not None and mentions(s.lhs):
+                    return False
+                continue
+            if mentions(s.lhs) and s.lhs[1]:
+                return False                      # (*l) = .. / (*l).f = ..
+            if s.rv.k in ("ref", "rawptr") and mentions(s.rv.place):
+                if s.rv.j.get("mut"):
+                    return False
+                continue
+            for o in s.rv.ops:
+                if o.place is not None and mentions(o.place):
+                    if not o.place[1]:
+                        # the reference itself is copied / moved somewhere
+                        if s.lhs[1] or s.lhs[0] == 0 or depth <= 0 or s.rv.k != "use" or not _ref_only_read(body, s.lhs[0], depth - 1):
+                            return False
+        t = blk.term
+        if t.k == "call":
+            if any(a.place is not None and mentions(a.place) and not a.place[1] for a in t.args):
+                return False
+            if t.dest is not None and mentions(t.dest) and t.dest[1]:
+                return False
+        elif t.k == "drop" and t.place is not None and mentions(t.place) and t.place[1]:
+            return False
+    return True
+
+
 def field_accesses(prog, owner_adt, field, funcs=None):
     """all writes / mutable borrows / constructions touching field `field` of ADT `owner_adt`.
     yields dict(func, bb, idx, kind, value_expr, sp)"""
@@ -71,6 +105,10 @@ def field_accesses(prog, owner_adt, field, funcs=None):
                         out.append(dict(func=f, bb=blk.i, idx=i, kind="assign" if last_is(s.lhs) else "assign_sub",
                                         value=x.rvalue(s.rv, x.depth), sp=s.sp, place=x.place(s.lhs)))
                     if s.rv.k in ("ref", "rawptr") and s.rv.j.get("mut") and touches(s.rv.place):
+                        if not s.lhs[1] and _ref_only_read(b, s.lhs[0]):
+                            # `let Toi { allocator, value } = self;` with `self: &mut Toi` binds `value: &mut u128` although it is only read:
+                            # a mutable borrow that is never stored through, reborrowed mutably or handed to a call is not a write
+                            continue
                         out.append(dict(func=f, bb=blk.i, idx=i, kind="borrow_mut", value=None, sp=s.sp,
                                         place=x.place(s.rv.place), exact=last_is(s.rv.place)))
                     if s.rv.k == "aggr" and s.rv.j.get("ak") == "adt" and s.rv.j.get("adt") == owner_adt:
@@ -573,3 +611,46 @@ def held_variants(facts, subject_pred):
         elif a[0] == "variant_in" and t and subject_pred(a[1]):
             out.extend(a[2])
     return sorted(set(out))
+
+
+def ret_value_defs(body, pred=lambda e: True, depth=3):
+    """like ret_assign_blocks, but a return of a local that is assigned in several places (`_0 = move r` where `r` is the result slot of an
+    inlined helper, or a `let r = if .. {a} else {b}; r`) is resolved to those assignments: [(block of the defining assignment, expr)]"""
+    x = X(body)
+    out = []
+
+    def defs_of_local(l, d):
+        res = []
+        for (bb, idx, kind) in body.defs().get(l, []):
+            if kind not in ("whole", "call") or body.blocks[bb].cleanup:
+                continue
+            if idx == "term":
+                res.append((bb, x.call_expr(bb, body.blocks[bb].term, x.depth)))
+                continue
+            rv = body.blocks[bb].stmts[idx].rv
+            src = rv.ops[0].place if rv.k == "use" and rv.ops and rv.ops[0].place is not None else None
+            if src is not None and not src[1] and d > 0 and len([z for z in body.defs().get(src[0], []) if z[2] in ("whole", "call")]) >= 2:
+                res.extend(defs_of_local(src[0], d - 1))
+            else:
+                res.append((bb, x.rvalue(rv, x.depth)))
+        return res
+    for (bb, e) in defs_of_local(0, depth):
+        if pred(e):
+            out.append((bb, e))
+    return out
+
+
+def norm_unwrap(e):
+    """normal form for comparing two spellings of the same value: `Option::unwrap(x)` / `expect` (after a guard that established Some) and
+    the payload binding of a pattern `x@Some.0` are the same value; likewise Result::unwrap / `@Ok.0`"""
+    if not isinstance(e, tuple) or not e:
+        return e
+    if not isinstance(e[0], str):
+        return tuple(norm_unwrap(x) if isinstance(x, tuple) else x for x in e)     # a tuple of expressions (call arguments, fields)
+    if e[0] == "call" and len(e) > 2 and len(e[2]) >= 1 and re.search(r"(option::)?Option::(unwrap|expect|unwrap_unchecked)$", e[1]):
+        return ("proj", norm_unwrap(e[2][0]), "@Some.0")
+    if e[0] == "call" and len(e) > 2 and len(e[2]) >= 1 and re.search(r"(result::)?Result::(unwrap|expect)$", e[1]):
+        return ("proj", norm_unwrap(e[2][0]), "@Ok.0")
+    if e[0] == "var" and isinstance(e[2], str) and e[2].endswith(("@Some.0", "@Ok.0")):
+        return ("proj", e[:2] + (e[2].rsplit("@", 1)[0],) + e[3:], "@" + e[2].rsplit("@", 1)[1])
+    return tuple(norm_unwrap(x) if isinstance(x, tuple) else x for x in e)
